@@ -147,6 +147,18 @@ void meta_case(Ctx &c) {
                     c.check(h1.threw == h2.threw && h1.data == h2.data, std::string("C18/retrieval/slice/") + rm_name(m), [&] { return "slice in " + u1[0] + " gave " + (h1.threw ? "exception" : dshow(h1.data)) + ", rescaled gave " + (h2.threw ? "exception" : dshow(h2.data)) + " | " + A.describe() + " start=" + dshow(s1) + " end=" + dshow(en1) + " start'=" + dshow(s2) + " end'=" + dshow(en2); });
                 }
             }
+            // fewer position entries than dimensions, but a unit for every dimension: the surplus unit has nothing to scale,
+            // the unspecified dimension is taken as the library takes it - identically for the request in axis units and the rescaled one
+            if (R == 2) {
+                Tag t3 = b.createTag("t" + str(ai) + "_" + str(ti) + "c", "t", std::vector<double>{p[0]}), t4 = b.createTag("t" + str(ai) + "_" + str(ti) + "d", "t", std::vector<double>{p2[0]});
+                if (has_ext) { t3.extent(std::vector<double>{e[0]}); t4.extent(std::vector<double>{e2[0]}); }
+                t3.units(r.chance(0.5) ? u1 : std::vector<std::string>{u1[0]}); t4.units(u2); t3.addReference(A.da); t4.addReference(A.da);
+                for (RangeMatch m : {RangeMatch::Inclusive, RangeMatch::Exclusive}) {
+                    c.op(std::string("taggedData metamorphic fewer-positions ") + rm_name(m));
+                    Got g1 = retrieve([&] { return util::taggedData(t3, A.da, m); }), g2 = retrieve([&] { return util::taggedData(t4, A.da, m); });
+                    c.check(g1.threw == g2.threw && g1.data == g2.data && g1.count == g2.count, std::string("C18/retrieval/tag-fewer-positions/") + rm_name(m), [&] { return "1 position on 2-d data: units [" + u1[0] + "] gave " + (g1.threw ? "exception " + g1.exc : dshow(g1.data)) + ", rescaled request with units [" + u2[0] + "," + u2[1] + "] gave " + (g2.threw ? "exception " + g2.exc : dshow(g2.data)) + " | " + A.describe() + " pos=" + dstr(p[0]) + " ext=" + dstr(e[0]) + " pos'=" + dstr(p2[0]); });
+                }
+            }
             // multi-tag with the same two rows
             {
                 DataArray pa = b.createDataArray("mp" + str(ai) + "_" + str(ti), "t", DataType::Double, R == 1 ? NDSize{2} : NDSize{2, (ndsize_t)R});
@@ -176,7 +188,7 @@ void run_case(Ctx &c) {
     c.nontrivial = c.checks > 20;
 }
 long ncases(const std::string &tier) { return NG(tier) + (tier == "quick" ? 40 : 1200); }
-std::vector<std::string> witnesses() { return {"d10-multi-letter-power", "d25-slice-width-epsilon"}; }
+std::vector<std::string> witnesses() { return {"d10-multi-letter-power", "d25-slice-width-epsilon", "d33-surplus-tag-unit"}; }
 void run_witness(Ctx &c, const std::string &name) {
     if (name == "d10-multi-letter-power") {
         for (const char *base : {"Sv", "Wb", "mol"}) for (int pw : {2, -1}) {
@@ -192,6 +204,19 @@ void run_witness(Ctx &c, const std::string &name) {
         c.op("dataSlice metamorphic Exclusive");
         Got h1 = retrieve([&] { return util::dataSlice(a, {0.625}, {0.75}, {"mT"}, RangeMatch::Exclusive); }), h2 = retrieve([&] { return util::dataSlice(a, {0.625 / fct}, {0.75 / fct}, {"TT"}, RangeMatch::Exclusive); });
         c.check(h1.threw == h2.threw && h1.data == h2.data, "C18/retrieval/slice/Exclusive", std::string("slice in mT ") + (h1.threw ? "raised" : "gave " + dshow(h1.data)) + ", the same slice in TT " + (h2.threw ? "raised" : "gave " + dshow(h2.data)));
+        f.close();
+    }
+    else if (name == "d33-surplus-tag-unit") {
+        // 10 x 8 array, axes in s and V; one position entry. Units {ms} and units {ms, mV} are the same request: the second unit has nothing to scale
+        File f = File::open(c.path("w.nix"), FileMode::Overwrite); Block b = f.createBlock("b", "t"); DataArray a = b.createDataArray("a", "t", DataType::Double, NDSize{10, 8});
+        std::vector<double> lin(80); for (int i = 0; i < 80; i++) lin[(size_t)i] = i; a.setData(DataType::Double, lin.data(), NDSize{10, 8}, NDSize{0, 0});
+        a.appendSampledDimension(1.0).unit("s"); a.appendSampledDimension(1.0).unit("V");
+        Tag t1 = b.createTag("t1", "t", {2000.0}), t2 = b.createTag("t2", "t", {2000.0}); t1.extent({3000.0}); t2.extent({3000.0}); t1.units({"ms"}); t2.units({"ms", "mV"}); t1.addReference(a); t2.addReference(a);
+        for (RangeMatch m : {RangeMatch::Inclusive, RangeMatch::Exclusive}) {
+            c.op(std::string("taggedData metamorphic fewer-positions ") + rm_name(m));
+            Got g1 = retrieve([&] { return util::taggedData(t1, a, m); }), g2 = retrieve([&] { return util::taggedData(t2, a, m); });
+            c.check(g1.threw == g2.threw && g1.data == g2.data && g1.count == g2.count, std::string("C18/retrieval/tag-fewer-positions/") + rm_name(m), std::string("units {ms} ") + (g1.threw ? "raised " + g1.exc : "gave " + str(g1.data.size()) + " elements") + ", units {ms,mV} " + (g2.threw ? "raised " + g2.exc : "gave " + str(g2.data.size()) + " elements"));
+        }
         f.close();
     }
     c.nontrivial = true;
